@@ -231,16 +231,24 @@ def c05(F: Facts):
     for aw in F.awaits:
         if aw.actor not in F.acts:
             continue
-        end = aw.e if aw.e is not None else F.last_seq + 1
         s = F.sig.get(aw.ev)
-        if s is not None and aw.b < s < end:
-            end = s
         if s is not None and s < aw.b:
             continue  # already complete when the await began
+        tree = F.desc(aw.ev) | {aw.ev}
+        on_stopped_bus = any(e in tree and F.bus_stopped_before(b) for (b, e) in F.accepted)
+        if aw.outcome == 'cancelled' or ((on_stopped_bus or F.stops or F.cancels) and aw.e is not None):
+            # the awaiting handler was cancelled, or buses were stopped / cancelled in this run (events on a stopped
+            # bus are never processed, dispatches to it are refused): the window ends where the await ended
+            end = aw.e
+        else:
+            # the window runs from the start of the await to the child's completion - also when the await itself
+            # returned earlier with the child still incomplete
+            end = s if s is not None else F.last_seq + 1
         ok = F.desc(aw.ev) | {aw.ev}
         for a in enters:
             if aw.b < a.enter_seq < end and a.ev not in ok:
-                out.append(V('C05', 'unrelated_in_window', (aw.actor, aw.ev, a.ev), act=a.id, bus=a.bus))
+                after = aw.e is not None and a.enter_seq > aw.e
+                out.append(V('C05', 'unrelated_in_window', (aw.actor, aw.ev, a.ev), act=a.id, bus=a.bus, after_await_returned=after))
                 break
     return out
 
